@@ -148,6 +148,8 @@ pub fn mutating_ops(n: usize, len: usize, wide: bool) -> Vec<Op> {
             ops.push(Op::Extend(m, h));
         }
         ops.push(Op::ExtendFromSlice(m));
+        ops.push(Op::ExtendPairs(m, Hint::Exact));
+        ops.push(Op::ExtendPairs(m, Hint::Low));
     }
     if n == 3 || n == 8 {
         // bulk arguments far beyond any plausible chunking threshold
@@ -345,7 +347,18 @@ pub fn c04_base(n: usize, start: usize, len: usize) -> Vec<Case> {
             ops.push(Op::IterScript(IterKind::RangeMut(canonical(a, b)), vec![Step::Dbg]));
             ops.push(Op::Drain(canonical(a, b), vec![Step::Dbg, Step::Next, Step::Dbg], End::Drop));
             ops.push(Op::Drain(canonical(a, b), vec![Step::NextBack, Step::Dbg], End::Drop));
+            // consuming adaptors after a step from either end: a slot that was already moved out must not be read again
+            for (pre, fin) in [(Step::NextBack, Step::Last), (Step::Next, Step::RevLast), (Step::NextBack, Step::Fold), (Step::Next, Step::RFold), (Step::NextBack, Step::Count),
+                               (Step::NextBack, Step::Nth(0)), (Step::Next, Step::NthBack(0))] {
+                ops.push(Op::Drain(canonical(a, b), vec![pre.clone(), fin.clone()], End::Drop));
+                ops.push(Op::Drain(canonical(a, b), vec![pre.clone(), pre.clone(), fin], End::Drop));
+            }
         }
+    }
+    for (pre, fin) in [(Step::NextBack, Step::Last), (Step::Next, Step::RevLast), (Step::NextBack, Step::Fold), (Step::Next, Step::RFold)] {
+        ops.push(Op::IntoIter(vec![pre.clone(), fin.clone()]));
+        ops.push(Op::IterScript(IterKind::Iter, vec![pre.clone(), fin.clone()]));
+        ops.push(Op::IterScript(IterKind::IterMut, vec![pre, fin]));
     }
     ops.push(Op::IterScript(IterKind::Iter, vec![Step::Dbg, Step::Next, Step::Dbg, Step::NextBack, Step::Dbg]));
     ops.push(Op::IterScript(IterKind::IterMut, vec![Step::Dbg, Step::Next, Step::Dbg]));
@@ -393,6 +406,7 @@ pub fn c05_base(n: usize, start: usize, len: usize) -> Vec<Case> {
     for m in 0..=(2 * n + 1) as u32 {
         ops.push(Op::ExtendFromSlice(m));
         ops.push(Op::Extend(m, Hint::Exact));
+        ops.push(Op::ExtendPairs(m, Hint::Exact));
         if n <= crate::deq::FROM_ARRAY_MAX_N && m as usize <= crate::deq::FROM_ARRAY_MAX_M {
             ops.push(Op::FromArray(m));
         }
@@ -462,6 +476,24 @@ pub fn c06_base(n: usize, start: usize, len: usize) -> Vec<(Case, Vec<FaultKind>
         ops.push((Op::Extend(m, Hint::Exact), vec![FaultKind::IterStep]));
         ops.push((Op::Extend(m, Hint::Zero), vec![FaultKind::IterStep]));
         ops.push((Op::FromIter(m, Hint::Exact), vec![FaultKind::IterStep]));
+        ops.push((Op::ExtendPairs(m, Hint::Exact), vec![FaultKind::IterStep]));
+        ops.push((Op::Unzip(m, Hint::Exact), vec![FaultKind::IterStep]));
+    }
+    // closures handed to the internal-iteration methods of the owning iterators (fold / rfold / for_each / position ...):
+    // a panic in the closure unwinds through the iterator, which must neither lose nor repeat an element
+    for a in 0..=len {
+        for b in a..=len {
+            if b - a < 1 {
+                continue;
+            }
+            for script in [vec![Step::Fold], vec![Step::RFold], vec![Step::Next, Step::RFold], vec![Step::NextBack, Step::Fold], vec![Step::FindMid], vec![Step::RFindMid],
+                           vec![Step::NextBack, Step::RFold], vec![Step::Next, Step::Fold]] {
+                ops.push((Op::Drain(canonical(a, b), script, End::Drop), vec![FaultKind::Make]));
+            }
+        }
+    }
+    for script in [vec![Step::Fold], vec![Step::RFold], vec![Step::Next, Step::RFold], vec![Step::NextBack, Step::Fold], vec![Step::FindMid], vec![Step::RFindMid]] {
+        ops.push((Op::IntoIter(script), vec![FaultKind::Make]));
     }
     if n > 0 {
         for s in 0..n {
@@ -710,6 +742,8 @@ pub fn c12(n: usize, start: usize, len: usize) -> Vec<Case> {
                 for h in hints_for(n) {
                     ops.push(Op::FromIter(m, h));
                 }
+                ops.push(Op::Unzip(m, Hint::Exact));
+                ops.push(Op::Unzip(m, Hint::Low));
             }
             for op in ops {
                 let follow = vec![op, Op::Views, Op::PushBack, Op::PopFront, Op::CloneBuf(true), Op::Views];
@@ -852,6 +886,8 @@ pub fn large(n: usize, start: usize, len: usize) -> Vec<Case> {
         ops.push(Op::Extend(m as u32, Hint::Low));
         ops.push(Op::ExtendFromSlice(m as u32));
         ops.push(Op::FromIter(m as u32, Hint::Exact));
+        ops.push(Op::ExtendPairs(m as u32, Hint::Exact));
+        ops.push(Op::Unzip(m as u32, Hint::Low));
     }
     let inr: Vec<usize> = pos.iter().copied().filter(|p| *p <= len).collect();
     for (ai, a) in inr.iter().enumerate() {
@@ -893,6 +929,11 @@ pub fn large(n: usize, start: usize, len: usize) -> Vec<Case> {
                 ops.push(Op::Cmp(s as u32, len as u32, Some(Idx::At((len - 1) as u32))));
                 ops.push(Op::Cmp(s as u32, len as u32, Some(Idx::At((len / 2) as u32))));
             }
+        }
+    }
+    for (bn, bm) in crate::deq::FROM_ARRAY_BIG_PAIRS {
+        if bn == n {
+            ops.push(Op::FromArray(bm as u32));
         }
     }
     // every step is followed by two insertions that make a misplaced front visible
